@@ -29,12 +29,17 @@ let () =
   reg "sercheck" (function dh :: sh :: mode :: _ ->
       (match parse_strict dh, parse_strict sh with
        | Some d, Some s ->
-         let raw = (mode = "compactraw") in
-         if dump_string ~raw d <> dump_string ~raw s then "bad:the serialized text denotes another tree"
+         let raw = (mode = "compactraw" || mode = "prettyraw") in
+         let sorted = (mode = "compact-sorted" || mode = "pretty-sorted") in
+         let pretty = (mode = "pretty" || mode = "prettyraw" || mode = "pretty-sorted") in
+         (* with key sorting the text must denote the source tree with the members of every object in
+            ascending key order (stable), nothing else changed *)
+         let d' = if sorted then SortKeys.sort_tree (nat_of_int 1000) d else d in
+         if dump_string ~raw d' <> dump_string ~raw s then "bad:the serialized text denotes another tree"
          else
-           let canon = if mode = "pretty" then SerAll.ser_pretty s else SerAll.ser_compact s in
+           let canon = if pretty then SerAll.ser_pretty s else SerAll.ser_compact s in
            if hex_of_bytes canon <> sh then "bad:not the canonical " ^ mode ^ " form: " ^ hex_of_bytes canon
-           else if raw && hex_of_bytes (SerAll.ser_compact d) <> sh then "bad:number literals not reproduced verbatim"
+           else if raw && hex_of_bytes (if pretty then SerAll.ser_pretty d' else SerAll.ser_compact d') <> sh then "bad:number literals not reproduced verbatim"
            else "ok"
        | None, _ -> "bad:source does not parse"
        | _, None -> "bad:serialized text does not parse") | _ -> raise (Bad_op "sercheck"));
